@@ -197,7 +197,7 @@ theorem dpRead_all (P : Bytes) (dp : Dp) (hwf : DpWF P dp) (seek : Nat) (n : Int
 
 theorem levelRead_spec (P : Bytes) (t : Tree) (hwf : TreeWF P t) (idx off n : Nat) :
     levelRead P t idx off n = .ok (slice (levelBytes P t idx) off n) := by
-  unfold levelRead levelBytes
+  unfold levelRead levelBytes levelFrom
   simp only
   by_cases hoff : off > (t.level idx).size
   · rw [if_pos hoff]
